@@ -144,4 +144,14 @@ PROPS = {
         ],
         "trusted_base": ["serde_json view of FastOps (ops, links, n, p_ends, var_ends, bond_counters)"],
     },
+    "C18": {
+        "harness_cmd": "c18",
+        "property_files": ["C18.v"],
+        "expected_theorems": ["C18_no_exhaustion_ever", "C18_full_at_every_call_boundary", "C18_call_ok_means_balanced", "C18_source_facts"],
+        "assumptions": [
+            "the premise 'every public call borrows within capacity and returns everything' is established on the real borrow/return traces of every call the harness makes (allocator hook behind --cfg qmc_verif) — control paths the harness does not reach are not covered",
+            "capacities, reset-on-return and gen_more=false are re-extracted from the Rust source on every run (tools/extract.py) and compared with the serde occupancy",
+        ],
+        "trusted_base": ["tools/extract.py (regex-level parser)", "the cfg(qmc_verif) hook in src/util/allocator.rs (commit fa41d26), thread-local, add-only"],
+    },
 }
